@@ -141,6 +141,8 @@ class Fn:
 
     def error_blocks(self):
         """Blocks on which the function is propagating / constructing an Err (or diverging)."""
+        if getattr(self, "_err", None) is not None:
+            return set(self._err)
         out = set()
         for b, blk in enumerate(self.blocks):
             if blk["cleanup"]:
@@ -155,11 +157,12 @@ class Fn:
             if t and t["t"] in ("unreachable", "resume", "terminate"):
                 out.add(b)
             for s in blk["stmts"]:
-                if s["s"] == "assign" and s["lhs"]["l"] == 0 and not s["lhs"]["p"]:
+                if s["s"] == "assign" and (s["lhs"]["l"] == 0 or s["lhs"]["l"] in self.raw.get("err_ret_locals", ())) and not s["lhs"]["p"]:
                     r = s["rhs"]
                     if r["rv"] == "agg" and r.get("agg") == "adt" and r.get("adt") == "core::result::Result" \
                             and r.get("variant") == "Err":
                         out.add(b)
+        self._err = frozenset(out)
         return out
 
     def reachable(self, start, avoid=()):
@@ -179,12 +182,8 @@ class Fn:
                     dq.append(s)
         return seen
 
-    def dominators(self):
-        """dom[b] = set of blocks dominating b (normal edges, from block 0)."""
-        if self._dom is not None:
-            return self._dom
-        n = len(self.blocks)
-        reach = self.reachable(0)
+    def _dominators_on(self, avoid):
+        reach = self.reachable(0, avoid=avoid)
         order = sorted(reach)
         full = set(order)
         dom = {b: set(full) for b in order}
@@ -204,6 +203,26 @@ class Fn:
                 if new != dom[b]:
                     dom[b] = new
                     changed = True
+        return dom
+
+    def reachable_ok(self, start, avoid=()):
+        """Blocks reachable from `start` without entering `avoid` or a block that is already propagating an error."""
+        return self.reachable(start, set(avoid) | self.error_blocks())
+
+    def dominators(self):
+        """dom[b] = set of blocks dominating b (normal edges, from block 0).
+
+        Success-path dominance: blocks that propagate / construct the function's own Err (and everything only
+        reachable through them) are left out of the graph, so "a dominates b" reads "every path to b that has not
+        already failed passes a" - what every rule means, and stable when a callee's `?` exits rejoin the caller at an
+        inlined call's continuation.  Blocks that are themselves on an error path keep their ordinary dominators."""
+        if self._dom is not None:
+            return self._dom
+        full = self._dominators_on(())
+        err = self.error_blocks() - {0}
+        ok = self._dominators_on(err)
+        dom = dict(full)
+        dom.update(ok)
         self._dom = dom
         return dom
 
@@ -283,13 +302,68 @@ class Program:
                 self._closures_of[fn.parent].append(fn)
         self._callers = None
 
+    def remove_fn(self, fid):
+        f = self.fns.pop(fid, None)
+        if f is None:
+            return
+        self.by_name[f.name] = [x for x in self.by_name[f.name] if x.id != fid]
+        # closures of a removed helper were copied textually into no caller: keep them addressable under the helper's id
+        self._callers = None
+
+    def replace_fn(self, nf):
+        """Swap in a rewritten body for an existing function (helper normalisation); drops derived caches."""
+        old = self.fns.get(nf.id)
+        self.fns[nf.id] = nf
+        lst = self.by_name[nf.name]
+        for i, f in enumerate(lst):
+            if f is old or f.id == nf.id:
+                lst[i] = nf
+                break
+        else:
+            lst.append(nf)
+        for par, cl in self._closures_of.items():
+            for i, f in enumerate(cl):
+                if f.id == nf.id:
+                    cl[i] = nf
+        self._callers = None
+        self.__dict__.pop("_fnitems", None)
+        for attr in ("_rule_cache", "_field_cache"):
+            if hasattr(self, attr):
+                delattr(self, attr)
+
     # -- lookup helpers ------------------------------------------------------
-    def closures_of(self, fn):
+    def closures_of(self, fn, _seen=None):
+        """Closures defined in fn (transitively), plus lib functions that fn passes by name where a closure could
+        stand (`.map(helper)`), plus closures adopted from helpers that were inlined into fn."""
+        _seen = _seen if _seen is not None else {fn.id}
         out = []
-        for c in self._closures_of.get(fn.id, []):
+        cands = list(self._closures_of.get(fn.id, [])) + self._fn_items_passed(fn)
+        for c in cands:
+            if c.id in _seen:
+                continue
+            _seen.add(c.id)
             out.append(c)
-            out.extend(self.closures_of(c))
+            out.extend(self.closures_of(c, _seen))
         return out
+
+    def _fn_items_passed(self, fn):
+        cache = self.__dict__.setdefault("_fnitems", {})
+        if fn.id in cache:
+            return cache[fn.id]
+        out = []
+        for b, t in fn.calls():
+            for a in t["args"]:
+                v = a.get("v") if isinstance(a, dict) and a.get("k") == "c" else None
+                if isinstance(v, dict) and v.get("fn") in self.fns and self.fns[v["fn"]].crate == fn.crate and self.fns[v["fn"]].crate == "abyssiniandb":
+                    if self.fns[v["fn"]] not in out:
+                        out.append(self.fns[v["fn"]])
+        cache[fn.id] = out
+        return out
+
+    def adopt_closures(self, new_parent_id, old_parent_id):
+        for c in self._closures_of.get(old_parent_id, []):
+            if c not in self._closures_of[new_parent_id]:
+                self._closures_of[new_parent_id].append(c)
 
     def find(self, name=None, self_adt=None, trait=None, crate=None, module=None, pred=None):
         out = []
@@ -567,6 +641,8 @@ class Tracer:
             return self._op(t["args"][0], ["?ok"] + rest[2:], depth, seen, nat)
         if callee == TRY_BRANCH and rest[:2] == ["dc:Break", "f:Break.0"]:
             return self._op(t["args"][0], ["?err"] + rest[2:], depth, seen, nat)
+        if callee in ERR_CALLEES and rest[:1] == ["?ok"]:
+            return []      # `from_residual(..)` only ever yields the Err side: not a source of an Ok payload
         if callee in ("core::convert::From::from", "core::convert::Into::into") and t["args"]:
             # identity conversions are kept as calls (the rule decides); expose arg origin as well
             pass
@@ -613,6 +689,11 @@ class Tracer:
                         idx = int(nm)
                 if idx is not None and idx < len(rv["ops"]):
                     return self._op(rv["ops"][idx], rest[1:], depth, seen, nat)
+            if rest and rest[0] in ("?ok", "?err") and agg == "adt" and rv.get("adt") == "core::result::Result" and rv["ops"]:
+                # `Ok(x)?` / a helper's `Ok(x)` seen through an inlined call: the payload itself
+                if (rest[0] == "?ok") == (rv.get("variant") == "Ok"):
+                    return self._op(rv["ops"][0], rest[1:], depth, seen, nat)
+                return []
             if rest and rest[0].startswith("dc:") and agg == "adt":
                 if rest[0][3:] == rv.get("variant"):
                     return self._rvalue(b, rv, rest[1:], depth, seen, at)
